@@ -65,18 +65,33 @@ def run(F, R, tier):
     # ---- (f) magic test ------------------------------------------------------------------------------------------
     fb = F.fn(PCAP + "PcapGlobalHeader::from_bytes")
     if R.anchor("PcapGlobalHeader::from_bytes", fb):
-        conds = [H.render(x["c"]) for x in H.walk(H.body_of(fb)) if x.get("k") == "if"]
-        ok = "((magic_number != PCAP_MAGIC_US) && (magic_number != PCAP_MAGIC_NS))" in conds
+        from .lib import decide as D
         us, ns = F.const(PCAP + "PCAP_MAGIC_US"), F.const(PCAP + "PCAP_MAGIC_NS")
+        rows, why = D.table(F, fb, inline=False)
+        MAGIC = r"((\w+\.)?magic_number|num::from_le_bytes\(\[data\[0\], data\[1\], data\[2\], data\[3\]\]\))"
+        ok, det = False, why
+        if rows is not None:
+            rows = [(e, "Err" if str(r).startswith("v1::Err") else ("Ok" if str(r).startswith("v1::Ok") else str(r)[:30])) for e, r in rows]
+            roles = [(r"^data\.len\(\) < 24$", "short"), (r"^PCAP_MAGIC_US == " + MAGIC + "$", "us"), (r"^PCAP_MAGIC_NS == " + MAGIC + "$", "ns")]
+            doms = {"short": (True, False), "us": (True, False), "ns": (True, False)}
+            ok, det = D.check(rows, roles, doms, lambda e: None if (e["us"] and e["ns"]) else ("Err" if (e["short"] or not (e["us"] or e["ns"])) else "Ok"))
         R.ob("magic-test", "accepts exactly the microsecond and nanosecond magics", ok and us == 0xA1B2C3D4 and ns == 0xA1B23C4D,
-             "conditions %s; US=%s NS=%s" % (conds, hex(us) if isinstance(us, int) else us, hex(ns) if isinstance(ns, int) else ns), F.loc(fb))
+             "%s; US=%s NS=%s" % (det, hex(us) if isinstance(us, int) else us, hex(ns) if isinstance(ns, int) else ns), F.loc(fb))
     # ---- (b) write_all writes header ‖ data once -------------------------------------------------------------------
     wa = F.fn(PCAP + "Pcap::write_all")
     if R.anchor("Pcap::write_all", wa):
         b = H.body_of(wa)
         writes = [x for x in H.walk(b) if x.get("k") == "mcall" and x["m"] in ("write_all", "write")]
-        ok = len(writes) == 2 and all(x["m"] == "write_all" and H.render(x["args"][0]) == "&bytes" for x in writes)
-        leaves = [H.render(e) for e, g in H.return_leaves(b)]
+        ok = len(writes) == 2 and all(x["m"] == "write_all" and H.render(H.strip(x["args"][0])) == "bytes" for x in writes)
+        lets_ = {x["pat"]["id"]: x["init"] for x in H.walk(b) if x.get("k") == "let" and x.get("pat", {}).get("k") == "bind" and x.get("init") is not None}
+        leaves = []
+        for e, g in H.return_leaves(b):
+            e2 = H.strip(e)
+            if e2.get("k") == "call" and e2.get("args") and H.local_id(H.strip(e2["args"][0])) in lets_:
+                # `let written = bytes.len(); .. Ok(written)`
+                leaves.append("v1::Ok(%s)" % H.render(H.strip(lets_[H.local_id(H.strip(e2["args"][0]))])))
+            else:
+                leaves.append(H.render(e))
         R.ob("whole-record-write", "write_all(&bytes) per handle kind; returns bytes.len()", ok and "v1::Ok(bytes.len())" in leaves,
              "writes: %s; results: %s" % ([H.render(x)[:40] for x in writes], leaves), F.loc(wa))
     # ---- (c) no crash on truncated / corrupt input ---------------------------------------------------------------------
@@ -104,24 +119,27 @@ def run(F, R, tier):
         # two reads per record (header, payload), once per handle kind or once in a shared generic helper
         R.floor("read_exact calls in next_packet", n_read, 2)
         np_body = H.body_inl(F, np_, keep=("read_exact", "from_bytes", "new"))
-        # allocation of caplen bytes is dominated by the caplen > snaplen rejection
-        txt = H.render(np_body)
-        n_guard = txt.count("if (packet_header.caplen > self.header.borrow().snaplen) {return v1::Err(")
-        n_alloc = len([x for x in H.walk(np_body) if x.get("k") == "call" and x.get("callee") == "std::vec::from_elem"])
+        # allocation of caplen bytes is dominated by the caplen > snaplen rejection: at every vec![0; n] of the record
+        # reader a dominating branch condition bounds the record's caplen by the file's snaplen (facts of the MIR)
+        from .lib import panics as P
+        n_alloc = n_guard = 0
+        for q in np_fns:
+            B = M.Body(F.fns[q])
+            for bi, b in enumerate(B.blocks):
+                t = b["term"]
+                if t["k"] == "call" and t.get("callee") == "std::vec::from_elem" and not b.get("cleanup"):
+                    n_alloc += 1
+                    cx = P.Ctx(B, F)
+                    facts, _ = P.edge_facts(B, cx, bi)
+                    for l, rel in P._Facts(facts, cx):
+                        cap = [a for a, c_ in l.c.items() if "caplen" in a and c_ == -1]
+                        snap = [a for a, c_ in l.c.items() if "snaplen" in a and c_ == 1]
+                        if rel == ">=" and cap and snap and len(l.c) == 2 and l.k == 0:
+                            n_guard += 1
+                            break
         order_ok = True
-        for br in H.walk(np_body):
-            if br.get("k") == "block":
-                seq = []
-                for s in br.get("stmts", []):
-                    r = H.render(s.get("e") or s.get("init") or {})
-                    if r.startswith("if (packet_header.caplen > self.header.borrow().snaplen)"):
-                        seq.append("guard")
-                    if "from_elem(0, packet_header.caplen as usize)" in r:
-                        seq.append("alloc")
-                if "alloc" in seq and seq[:1] != ["guard"]:
-                    order_ok = False
         R.ob("caplen-bounded", "vec![0; caplen] only after caplen <= snaplen", n_guard == n_alloc and n_alloc >= 1 and order_ok,
-             "%d guards, %d allocations" % (n_guard, n_alloc), F.loc(np_))
+             "%d allocations, %d of them behind a dominating caplen <= snaplen test" % (n_alloc, n_guard), F.loc(np_))
         # ---- (e) the two reader branches are clones --------------------------------------------------------------------
         arms = []
         for m in H.walk(np_body):
